@@ -30,12 +30,25 @@ type T2 struct {
 	Code string `valid:"zz,le=3"`
 }
 
+type LongSlices struct {
+	S []string `valid:"unique,ints,le=100"`
+	I []int    `valid:"unique,ints,le=100"`
+}
+
 type T4 struct {
 	A string `valid:"either=1"`
 	B string `valid:"either=1"`
 	C int    `valid:"botheq=2"`
 	D int    `valid:"botheq=2"`
 }
+
+var churnTypes = func() []reflect.Type {
+	var ts []reflect.Type
+	for i := 0; i < 8; i++ {
+		ts = append(ts, reflect.StructOf([]reflect.StructField{{Name: "A", Type: reflect.TypeOf(""), Tag: reflect.StructTag(fmt.Sprintf(`valid:"required" salt:"%d"`, i))}}))
+	}
+	return ts
+}()
 
 type deleg struct{ inner valid.CacheEr }
 
@@ -130,6 +143,23 @@ func callMenu() []callT {
 		}, func(a []interface{}) (string, []string) {
 			return errText(valid.NewVStruct().SetRule(a[1].(valid.RM), &T1{}).SetRule(a[2].(valid.RM), T1{}).Valid(a[0])), nil
 		}, nil},
+		// a long unsorted slice with one duplicate under unique: the caller's slice keeps its order
+		{"Var([]string x40, unique)", func() []interface{} {
+			var v []string
+			for i := 0; i < 40; i++ {
+				v = append(v, fmt.Sprintf("s%02d", (i*7)%39))
+			}
+			return []interface{}{v, []string{"unique", "ge=3"}}
+		}, func(a []interface{}) (string, []string) { return errText(valid.Var(a[0], a[1].([]string)...)), nil }, nil},
+		{"Struct(long slices)", func() []interface{} {
+			var v []string
+			var w []int
+			for i := 0; i < 70; i++ {
+				v = append(v, fmt.Sprintf("s%02d", (i*11)%64))
+				w = append(w, (i*13)%61)
+			}
+			return []interface{}{&LongSlices{S: v, I: w}}
+		}, func(a []interface{}) (string, []string) { return errText(valid.Struct(a[0])), nil }, nil},
 		{"GenValidKV+Explain", func() []interface{} { return []interface{}{"to", "1~10", "需要在 1-10"} },
 			func(a []interface{}) (string, []string) {
 				s := valid.GenValidKV(a[0].(string), a[1].(string), a[2].(string))
@@ -225,6 +255,9 @@ func run(c *runner.Ctx) {
 		}
 	}
 
+	// churn >= 0: the type cache of the execution is LRU(1) and `churn` other types are validated (scheduler inactive)
+	// before the sequence, so that the cache's internal removal counter sits at every residue of its rebuild period
+	churn := -1
 	explore := func(seq []int, bound int) {
 		var viol []string
 		reported := map[string]bool{}
@@ -237,6 +270,12 @@ func run(c *runner.Ctx) {
 			Opt: vsched.Options{Bound: bound, PoolChoices: true, Deadline: c.Deadline()},
 			Setup: func() []func() {
 				d.inner = valid.NewLRU()
+				if churn >= 0 {
+					d.inner = valid.NewLRU(1)
+					for i := 0; i < churn; i++ {
+						_ = valid.Struct(reflect.New(churnTypes[i]).Interface())
+					}
+				}
 				viol = viol[:0]
 				obsKey = ""
 				return []func(){func() {
@@ -342,6 +381,19 @@ func run(c *runner.Ctx) {
 			return
 		}
 	}
+	// every sequence of length 3 again on a one-entry cache after 0..5 evictions (default pool answers only)
+	for churn = 0; churn <= 5; churn++ {
+		c.Space(fmt.Sprintf("sequences-len3/LRU(1)-after-%d-evictions", churn))
+		seq := make([]int, 3)
+		for x := 0; x < n*n*n; x++ {
+			if !c.Take() {
+				continue
+			}
+			seq[0], seq[1], seq[2] = x/(n*n), (x/n)%n, x%n
+			explore(append([]int{}, seq...), 0)
+		}
+	}
+	churn = -1
 	c.Space("permutations-of-4-subsets")
 	var rec func(cur []int, used uint)
 	rec = func(cur []int, used uint) {
@@ -372,8 +424,8 @@ func main() {
 	runner.Main(runner.Config{
 		Property:  "C12",
 		Technique: "all call sequences/permutations up to a depth, single-threaded under the controlled scheduler with every sync.Pool.Get answer enumerated (deviation-bounded); fresh-state oracle + aliasing re-reads",
-		Rule: "20 heterogeneous calls (datetime with custom and default separators, calls rejected before validation (unsupported / nil source), two rule sets registered in one call, struct with default tag / tag b / per-call rules / per-call functions, group rules over a slice, Var with quoted rules, Map, Url, a call returning before validation, splitter, builder+extractor); " +
-			"all sequences of length<=3 (thorough: <=4) and all permutations of 4-subsets; per sequence every Pool.Get answer (top / other pooled object / New) within the deviation bound; per call: result = fresh-state result (= model for struct calls), " +
+		Rule: "22 heterogeneous calls (long unsorted slices under unique, datetime with custom and default separators, calls rejected before validation (unsupported / nil source), two rule sets registered in one call, struct with default tag / tag b / per-call rules / per-call functions, group rules over a slice, Var with quoted rules, Map, Url, a call returning before validation, splitter, builder+extractor); " +
+			"all sequences of length<=3 (thorough: <=4), all sequences of length 3 again on a one-entry type cache after 0..5 evictions, and all permutations of 4-subsets; per sequence every Pool.Get answer (top / other pooled object / New) within the deviation bound; per call: result = fresh-state result (= model for struct calls), " +
 			"arguments deep-equal to a fresh copy, every previously handed-out error string / rule token re-compared with its detached copy; transitions = scheduling steps; states = distinct result vectors; non-trivial = sequences of >=2 calls",
 		Assumptions: []string{"pool answers are owned by the scheduler shim (sync.Pool replaced through the build overlay)", "global type cache fresh per execution (delegating CacheEr)"},
 		Run:         run,
